@@ -65,7 +65,8 @@ def run_cases(cases, timeout_ms=5000, jobs=None):
     if p.returncode != 0:
         tool_fail("harness run failed: " + p.stderr[-2000:])
     out = {}
-    for line in p.stdout.splitlines():
+    # split on LF only: str.splitlines() would also split on U+0085 / U+2028 inside JSON strings
+    for line in p.stdout.split("\n"):
         if not line.strip():
             continue
         r = json.loads(line)
